@@ -120,7 +120,7 @@ def gen(rng, tier):
                   gen_lists=gen_lists, big_divisor=40)
     out += gen_internal(rng, tier, configs)
     if thorough:
-        out += exhaustive8(OPS)
+        out += exhaustive8({k: v for k, v in OPS.items() if k not in INTERNAL})   # internal ops have preconditions
         # (8,2) vs (8,2): all 16-bit dividends against a sample of divisors for the core ops (Knuth path at w=8)
         for op in ("U.checked_div", "U.checked_rem", "I.checked_div", "I.checked_rem"):
             for d in range(256, 65536, 97):
